@@ -188,8 +188,10 @@ def r05k(an, rep, rule="R05.K2"):
         if isinstance(a, float):
             return (math.isnan(a) and math.isnan(b)) or (a == b and math.copysign(1, a) == math.copysign(1, b))
         return a == b
-    W = [1, True, "a", b"x", None, Ellipsis, 1.5, -0.0, complex(0.0, -0.0), (1, ("b", 2.0)), frozenset({1, 2, 3}), (frozenset({("c", 1)}), 7), frozenset({("alpha", 1), ("beta", 2)})]
+    W = [1, True, "a", b"x", None, Ellipsis, 1.5, -0.0, complex(0.0, -0.0), (1, ("b", 2.0)), frozenset({1, 2, 3}), (frozenset({("c", 1)}), 7), frozenset({("alpha", 1), ("beta", 2)}),
+         frozenset({7, 15, 23}), frozenset({"x", b"y", None})]
     bad = []
+    reordered = []
     for w in W:
         ev = ObjEval(resolve, extra={"CodeData": type("CodeData", (), {})})
         ev.module_assigns = target.module.assigns
@@ -202,6 +204,14 @@ def r05k(an, rep, rule="R05.K2"):
             raise AnalysisError(f"{target.qual}: not evaluable on the witness constant {w!r} ({type(ex).__name__}: {ex})")
         if not same(got, w):
             bad.append(f"the constant {w!r} is handed to CodeType as {got!r}")
+        # a frozenset without tuple members needs no copy (CPython only rewrites tuples in place), and a copy can iterate in another order than the original
+        # when hashes collide ({7, 15, 23}: 7, 15 and 23 share a slot in a table of 8): the program's `for x in {...}` would run in another order
+        if isinstance(w, frozenset) and not any(isinstance(x, tuple) for x in w) and got is not w:
+            reordered.append(w)
+    rep.add(rule, f"{target.qual}::a frozenset constant without tuples is handed over as it is", not reordered, loc(target.module, target.node),
+            "frozensets of scalars reach CodeType as the decoded objects (same iteration order)" if not reordered else
+            f"the frozenset {set(reordered[0])!r} is rebuilt: a rebuilt set iterates in insertion order of its collision chains, the original in the order the compiler built it - for members whose "
+            f"hashes collide (`for x in {{7, 15, 23}}`) the re-encoded program iterates in another order and prints something else")
     rep.add(rule, f"{target.qual}::every kind of constant keeps its value and type", not bad, loc(target.module, target.node),
             f"{len(W)} witness constants (scalars, nested tuples, frozensets, tuples inside frozensets) come out equal and of the same type" if not bad else
             f"{bad[0]}: the re-encoded program loads another kind of object (`x in {{1, 2, 3}}` with a tuple instead of the frozenset: `[] in ...` returns False instead of raising TypeError, "
